@@ -662,6 +662,140 @@ def segVert3 (s : Segment3 Float) (i : Nat) : Option (V3 Rat) :=
 def segVert2 (s : Segment2 Float) (i : Nat) : Option (V2 Rat) :=
   match i with | 0 => some (q2 s.a) | 1 => some (q2 s.b) | _ => none
 
+/-! ## tetrahedron (`point_tetrahedron.rs`): location form, default distance / contains, feature -/
+
+def ptet : P (Tetrahedron Float) := do let a ← pv3; let b ← pv3; let c ← pv3; let d ← pv3; pure ⟨a, b, c, d⟩
+
+def ftetLoc : TetLoc Float → String
+  | .vertex i => s!"V {i}"
+  | .edge i b0 b1 => s!"E {i} {ff b0} {ff b1}"
+  | .face i b0 b1 b2 => s!"F {i} {ff b0} {ff b1} {ff b2}"
+  | .solid => "S"
+
+/-- exact description: barycentric membership, distance = min over the four faces -/
+def tetSpec (s : Tetrahedron Float) : Spec V3 :=
+  let a := q3 s.a; let b := q3 s.b; let c := q3 s.c; let d := q3 s.d
+  let ab := b.sub a; let ac := c.sub a; let ad := d.sub a
+  let det := ab.dot (ac.cross ad)
+  let mem (p : V3 Rat) : Bool :=
+    let ap := p.sub a
+    let u := ap.dot (ac.cross ad) / det
+    let v := ab.dot (ap.cross ad) / det
+    let w := ab.dot (ac.cross ap) / det
+    0 ≤ u && 0 ≤ v && 0 ≤ w && u + v + w ≤ 1
+  let bd (p : V3 Rat) : Rat :=
+    rsqrt (rmin (rmin (triDist2_3 a b c p) (triDist2_3 a b d p)) (rmin (triDist2_3 a c d p) (triDist2_3 b c d p)))
+  { valid := det != 0
+    mem := mem
+    dist := fun p => if mem p then 0 else bd p
+    bdist := bd
+    cls := fun p => if mem p then "@interior" else "" }
+
+def tetVert (s : Tetrahedron Float) (i : Nat) : Option (V3 Rat) :=
+  match i with | 0 => some (q3 s.a) | 1 => some (q3 s.b) | 2 => some (q3 s.c) | 3 => some (q3 s.d) | _ => none
+/-- edges `0:ab 1:ac 2:ad 3:bc 4:bd 5:cd` -/
+def tetEdge (s : Tetrahedron Float) (i : Nat) : Option (V3 Rat × V3 Rat) :=
+  match i with
+  | 0 => some (q3 s.a, q3 s.b) | 1 => some (q3 s.a, q3 s.c) | 2 => some (q3 s.a, q3 s.d)
+  | 3 => some (q3 s.b, q3 s.c) | 4 => some (q3 s.b, q3 s.d) | 5 => some (q3 s.c, q3 s.d) | _ => none
+/-- faces `0:abc 1:abd 2:acd 3:bcd` -/
+def tetFace (s : Tetrahedron Float) (i : Nat) : Option (V3 Rat × V3 Rat × V3 Rat) :=
+  match i with
+  | 0 => some (q3 s.a, q3 s.b, q3 s.c) | 1 => some (q3 s.a, q3 s.b, q3 s.d)
+  | 2 => some (q3 s.a, q3 s.c, q3 s.d) | 3 => some (q3 s.b, q3 s.c, q3 s.d) | _ => none
+
+def tetLocOk (s : Tetrahedron Float) (l : LocOut) (p pr : V3 Rat) (t : Rat) : Bool :=
+  match l with
+  | .vertex i => match tetVert s i with | some v => near3 pr v t | none => false
+  | .edge i b0 b1 => match tetEdge s i with
+    | some (a, b) => bOk t [q b0, q b1] && near3 pr ((a.smul (q b0)).add (b.smul (q b1))) t
+    | none => false
+  | .face i b0 b1 b2 => match tetFace s i with
+    | some (a, b, c) => bOk t [q b0, q b1, q b2] && near3 pr (((a.smul (q b0)).add (b.smul (q b1))).add (c.smul (q b2))) t
+    | none => false
+  | .solid => near3 pr p t && (tetSpec s).dist p ≤ t
+
+def tetFeatOk (s : Tetrahedron Float) (f : Feat) (p : V3 Rat) (t : Rat) : Bool :=
+  match f with
+  | .vertex i => match tetVert s i with | some v => near3 p v t | none => false
+  | .edge i => match tetEdge s i with | some (a, b) => rsqrt (segDist2_3 a b p) ≤ t | none => false
+  | .face i => match tetFace s i with | some (a, b, c) => rsqrt (triDist2_3 a b c p) ≤ t | none => false
+  | .unknown => false
+
+def tetPanicVerdict (S : Spec V3) (p : V3 Rat) (solid : Bool) : String :=
+  if !S.valid then "skip shape-outside-domain"
+  else if !solid && (S.mem p || S.bdist p ≤ ftol D3 p p) then "fail panic@interior-nonsolid" else "fail panic"
+
+def tetHandler (op : String) : Option Handler :=
+  match op with
+  | "loc" => some {
+      model := fun a => run (do let s ← ptet; let p ← pv3; let so ← pbool
+                                pure (match s.projectLoc p so with
+                                  | .panic => "panic"
+                                  | .ok pp l => s!"{fb pp.inside} {fv3 pp.pt} {ftetLoc l}")) a
+      oracle := fun a o => match run (do let s ← ptet; let p ← pv3; let so ← pbool; pure (s, p, so)) a with
+        | some (s, p, so) =>
+          let S := tetSpec s; let P := q3 p
+          match o with
+          | "panic" :: _ => tetPanicVerdict S P so
+          | _ => match run (do let r ← ppOut D3; let l ← ptriLocOut; pure (r, l)) o with
+            | some ((ins, pr), l) =>
+              if vNan D3 pr then "fail nan-projection" else
+              let R := q3 pr
+              let j := judgeProj D3 S P so ins R
+              if j != "pass" then j
+              else if tetLocOk s l P R (ftol D3 P R) then "pass" else "fail location-does-not-reproduce-projection"
+            | none => "fail unparsable-output"
+        | none => "skip bad-args" }
+  | "dist" => some {
+      model := fun a => run (do let s ← ptet; let p ← pv3; let so ← pbool
+                                pure (match s.projectLoc p so with
+                                  | .panic => "panic"
+                                  | .ok pp _ =>
+                                    let dist := (pp.pt.sub p).norm
+                                    ff (if so || !pp.inside then dist else -dist))) a
+      oracle := fun a o => match run (do let s ← ptet; let p ← pv3; let so ← pbool; pure (s, p, so)) a with
+        | some (s, p, so) =>
+          let S := tetSpec s; let P := q3 p
+          match o with
+          | "panic" :: _ => tetPanicVerdict S P so
+          | _ => withOut pfo o fun d => if d.isNaN then "fail nan-distance" else judgeDist D3 S P so (q d)
+        | none => "skip bad-args" }
+  | "cont" => some {
+      model := fun a => run (do let s ← ptet; let p ← pv3
+                                pure (match s.projectLoc p true with
+                                  | .panic => "panic"
+                                  | .ok pp _ => fb pp.inside)) a
+      oracle := fun a o => match run (do let s ← ptet; let p ← pv3; pure (s, p)) a with
+        | some (s, p) =>
+          match o with
+          | "panic" :: _ => tetPanicVerdict (tetSpec s) (q3 p) true
+          | _ => withOut pbool o fun c => judgeCont D3 (tetSpec s) (q3 p) c
+        | none => "skip bad-args" }
+  | "feat" => some {
+      model := fun a => run (do let s ← ptet; let p ← pv3
+                                pure (match s.projectLoc p false with
+                                  | .panic => "panic"
+                                  | .ok pp l =>
+                                    let f := match l with
+                                      | .vertex i => s!"V {i}" | .edge i _ _ => s!"E {i}" | .face i _ _ _ => s!"F {i}" | .solid => "panic"
+                                    if f == "panic" then "panic" else s!"{fb pp.inside} {fv3 pp.pt} {f}")) a
+      oracle := fun a o => match run (do let s ← ptet; let p ← pv3; pure (s, p)) a with
+        | some (s, p) =>
+          let S := tetSpec s; let P := q3 p
+          match o with
+          | "panic" :: _ => tetPanicVerdict S P false
+          | _ => withOut (do let r ← ppOut D3; let f ← pfeat; pure (r, f)) o fun ((ins, pr), f) =>
+              if !S.valid then "skip shape-outside-domain"
+              else if vNan D3 pr then "fail nan-projection"
+              else
+                let R := q3 pr
+                let j := judgeProj D3 S P false ins R
+                if j != "pass" then j
+                else if tetFeatOk s f R (ftol D3 P R) then "pass" else s!"fail feature-does-not-contain-projection {ffeat f}"
+        | none => "skip bad-args" }
+  | _ => none
+
 def handler (fn : String) : Option Handler :=
   match fn.splitOn "_" with
   | [shape, op] =>
@@ -688,6 +822,7 @@ def handler (fn : String) : Option Handler :=
     | "cone", _ => mk D3 Hcone op
     | "tri3", _ => mk D3 Htri3 op
     | "tri2", _ => mk D2 Htri2 op
+    | "tet", _ => tetHandler op
     | _, _ => none
   | _ => none
 
